@@ -27,6 +27,8 @@ returns for data dominated by a polynomial background).
 
 from __future__ import annotations
 
+from fractions import Fraction
+
 import numpy as np
 
 LD = np.longdouble
@@ -173,3 +175,199 @@ def self_test(n: int = 400):
             got = integrate(ref(x), x, w, loc, scale)
             worst = max(worst, abs(got - LD(2.5)) / LD(2.5))
     return float(worst)
+
+
+# ------------------------------------------------- sensitivity to the inputs ---
+def peak_ref_inputs(kind, x, amplitude, loc, scale, fraction=None):
+    """Closed form (long-double arguments allowed) and a tolerance that also covers a relative
+    rounding of 64 eps in every *input* (abscissa, location, scale): what an evaluation that first
+    brings the arguments to a common unit is entitled to.  d f/dx is taken from the definitions:
+    Gaussian f' = -f d/s^2, Lorentzian f' = -2 f d/(d^2 + s^2); the scale enters with
+    |s df/ds| <= (1 + 2 z) |f| (Gaussian), <= |f| (Lorentzian)."""
+    x, a, m, s = _ld(x), LD(amplitude), LD(loc), LD(scale)
+    d = x - m
+    span = np.abs(x) + np.abs(m)
+
+    def gauss(sig):
+        v, t = gaussian_ref(x, a, m, sig)
+        z = d * d / (TWO * sig * sig)
+        return v, t + LD(K * EPS) * np.abs(v) * (span * np.abs(d) / (sig * sig) + LD(1) + TWO * z)
+
+    def lorentz():
+        v, t = lorentzian_ref(x, a, m, s)
+        return v, t + LD(K * EPS) * np.abs(v) * (span * TWO * np.abs(d) / (d * d + s * s) + LD(1))
+
+    if kind == 'gauss':
+        return gauss(s)
+    if kind == 'lorentz':
+        return lorentz()
+    f = LD(fraction)
+    lv, lt = lorentz()
+    gv, gt = gauss(s / SQRT_2LN2)
+    val = f * lv + (LD(1) - f) * gv
+    tol = np.abs(f) * lt + np.abs(LD(1) - f) * gt + LD(K * EPS) * (
+        np.abs(lv) + np.abs(gv)) + FLOOR
+    return val, tol
+
+
+# ------------------------------------------------------------------ units ---
+# Own model of the units the C16 workload hands to the models: a unit is a *descriptor*, a tuple of
+# (base name, integer exponent); its SI factor (exact Fraction) and its dimension vector are computed
+# here from the table below.  scipp is used (a) to build the container unit from a descriptor by unit
+# algebra (product of sc.Unit(base) ** exponent) and (b) to *identify* an observed unit by equality
+# with a unit built that way -- never to obtain a conversion factor.  ``units_self_test`` cross-checks
+# the base table against sc.to_unit once per process (a disagreement makes the run inconclusive).
+DIM_NAMES = ('length', 'mass', 'time', 'temperature', 'angle', 'counts')
+# a difference in one of these components is a dimensional inconsistency beyond doubt; 'angle' and
+# 'counts' are pure numbers in SI (scipp keeps them apart, an implementation need not): a difference in
+# those alone is never judged
+HARD = (0, 1, 2, 3)
+ZERO_DIM = (0, 0, 0, 0, 0, 0)
+_PI_F = Fraction('3.14159265358979323846264338327950288419716939937510')
+_E_CHARGE = Fraction(1602176634, 10**28)  # exact by definition (2019 SI)
+
+
+def _dim(**kw):
+    return tuple(kw.get(n, 0) for n in DIM_NAMES)
+
+
+_L, _M, _T, _TH, _ANG, _CNT = (_dim(length=1), _dim(mass=1), _dim(time=1), _dim(temperature=1),
+                               _dim(angle=1), _dim(counts=1))
+_EN = _dim(length=2, mass=1, time=-2)
+UNIT_BASE = {
+    # name: (SI factor, dimension, SI unit to cross-check against)
+    'm': (Fraction(1), _L, 'm'), 'cm': (Fraction(1, 100), _L, 'm'), 'mm': (Fraction(1, 1000), _L, 'm'),
+    'um': (Fraction(1, 10**6), _L, 'm'), 'nm': (Fraction(1, 10**9), _L, 'm'),
+    'angstrom': (Fraction(1, 10**10), _L, 'm'), 'km': (Fraction(1000), _L, 'm'),
+    's': (Fraction(1), _T, 's'), 'ms': (Fraction(1, 1000), _T, 's'), 'us': (Fraction(1, 10**6), _T, 's'),
+    'ns': (Fraction(1, 10**9), _T, 's'),
+    'kg': (Fraction(1), _M, 'kg'), 'g': (Fraction(1, 1000), _M, 'kg'), 'mg': (Fraction(1, 10**6), _M, 'kg'),
+    'K': (Fraction(1), _TH, 'K'), 'mK': (Fraction(1, 1000), _TH, 'K'),
+    'rad': (Fraction(1), _ANG, 'rad'), 'deg': (_PI_F / 180, _ANG, 'rad'), 'mrad': (Fraction(1, 1000), _ANG, 'rad'),
+    'counts': (Fraction(1), _CNT, 'counts'),
+    'percent': (Fraction(1, 100), ZERO_DIM, 'dimensionless'),
+    'J': (Fraction(1), _EN, 'J'), 'kJ': (Fraction(1000), _EN, 'J'), 'eV': (_E_CHARGE, _EN, 'J'),
+    'meV': (_E_CHARGE / 1000, _EN, 'J'),
+}
+
+
+def siblings(base):
+    """Other base units of the same dimension (a different scale of the same quantity)."""
+    f, d, _ = UNIT_BASE[base]
+    return [b for b, (bf, bd, _) in UNIT_BASE.items() if bd == d and bf != f]
+
+
+def u_mul(a, b, k=1):
+    """Descriptor of a * b**k."""
+    exps: dict = {}
+    for base, e in a:
+        exps[base] = exps.get(base, 0) + e
+    for base, e in b:
+        exps[base] = exps.get(base, 0) + k * e
+    return tuple((base, e) for base, e in exps.items() if e != 0)
+
+
+def u_pow(a, k):
+    return u_mul((), a, k)
+
+
+def u_factor(desc) -> Fraction:
+    f = Fraction(1)
+    for base, e in desc:
+        f *= UNIT_BASE[base][0] ** e
+    return f
+
+
+def u_dim(desc):
+    d = list(ZERO_DIM)
+    for base, e in desc:
+        for i, c in enumerate(UNIT_BASE[base][1]):
+            d[i] += e * c
+    return tuple(d)
+
+
+def u_name(desc):
+    if not desc:
+        return 'dimensionless'
+    return '*'.join(base if e == 1 else f'{base}^{e}' for base, e in desc)
+
+
+def dim_add(a, b, k=1):
+    return tuple(x + k * y for x, y in zip(a, b, strict=True))
+
+
+def dim_relation(a, b):
+    """'same' | 'soft' (differ in angle / counts only) | 'hard' (differ in length, mass, time, temperature)."""
+    if tuple(a) == tuple(b):
+        return 'same'
+    if any(a[i] != b[i] for i in HARD):
+        return 'hard'
+    return 'soft'
+
+
+class UnitTableError(Exception):
+    pass
+
+
+_UNIT_REG: list = []  # (container unit, Fraction factor, dimension, name)
+_UNIT_CACHE: dict = {}  # repr of an observed unit -> (factor, dimension); positive hits only
+_DESC_CACHE: dict = {}  # descriptor -> container unit
+
+
+def _frac_ld(f: Fraction):
+    return LD(str(f.numerator)) / LD(str(f.denominator))
+
+
+def u_register(desc):
+    """Container unit of a descriptor; remembers (factor, dimension) for ``u_lookup``."""
+    import scipp as sc
+
+    desc = tuple(desc)
+    u = _DESC_CACHE.get(desc)
+    if u is not None:
+        return u
+    u = sc.Unit('dimensionless')
+    for base, e in desc:
+        u = u * sc.Unit(base) ** e
+    f, d = u_factor(desc), u_dim(desc)
+    for ru, rf, rd, rn in _UNIT_REG:
+        if ru == u:
+            # scipp compares multipliers with a tolerance; mathematically equal descriptors give the same Fraction
+            if rd != d or abs(rf - f) > Fraction(1, 10**9) * abs(f):
+                raise UnitTableError(f'{u_name(desc)} and {rn} are the same unit for scipp but differ in the table')
+            break
+    else:
+        _UNIT_REG.append((u, f, d, u_name(desc)))
+    _DESC_CACHE[desc] = u
+    return u
+
+
+def u_lookup(unit):
+    """(long-double SI factor, dimension) of an observed unit; KeyError when it was never registered."""
+    key = repr(unit) + '|' + str(unit)
+    hit = _UNIT_CACHE.get(key)
+    if hit is None:
+        for ru, rf, rd, _ in _UNIT_REG:
+            if ru == unit:
+                hit = (_frac_ld(rf), rd)
+                break
+        else:
+            raise KeyError(f'unit {unit!r} was not built from the independent table')
+        _UNIT_CACHE[key] = hit
+    return hit
+
+
+def units_self_test():
+    """Base table against sc.to_unit (once per process); list of disagreements."""
+    import scipp as sc
+
+    bad = []
+    for name, (f, _, target) in UNIT_BASE.items():
+        try:
+            got = float(sc.scalar(1.0, unit=name).to(unit=target).value)
+        except Exception as e:  # noqa: BLE001
+            bad.append(f'{name}: {type(e).__name__}: {e}')
+            continue
+        if abs(got - float(f)) > 4e-16 * float(f):
+            bad.append(f'{name}: scipp {got!r}, table {float(f)!r}')
+    return bad
